@@ -50,6 +50,10 @@ type hist struct {
 	diverged bool            // a recorded finding was recognised and adopted (C10: the memory twin legitimately differs from here on)
 	rm0      map[string]bool // cache for k6Vulnerable, valid for one judgement
 	unlisted map[string]bool // K6: artifact dropped from its subject's referrers list by a collection while it survived
+	// K1 candidates of any moment since the last judged collection: the directory store reloads index.json whenever its
+	// time stamps ask for it (under load: at any request), so a manifest that was an orphan a few operations ago may
+	// have been lost then, although something stored since makes it derivable again
+	orphSince map[string]bool
 }
 
 func (h *hist) polString() string {
@@ -235,6 +239,7 @@ func (h *hist) collect() {
 	m := w.Repos["r"]
 	ctx := context.Background()
 	h.ngc++
+	defer func() { h.orphSince = nil }() // judged: the window starts again
 	allOld := h.pol.Grace < 0
 	if h.rng.Intn(2) == 0 {
 		if _, err := h.srv.VerifSetAllBlobTimes(ctx, "r", time.Now().Add(-10*time.Hour-time.Duration(h.ngc)*time.Second)); err == nil {
@@ -733,7 +738,21 @@ func (h *hist) pull(d, what string, seen map[string]bool) {
 // index.json) and that are not derivable from the manifests that do have one, through index children and listed
 // referrers.
 func (h *hist) orphans() map[string]bool {
-	return h.w.Orphans(h.w.Repos["r"], h.unlisted)
+	o := h.w.Orphans(h.w.Repos["r"], h.unlisted)
+	for d := range h.orphSince {
+		o[d] = true
+	}
+	return o
+}
+
+// noteOrphans is called after every operation.
+func (h *hist) noteOrphans() {
+	if h.orphSince == nil {
+		h.orphSince = map[string]bool{}
+	}
+	for d := range h.w.Orphans(h.w.Repos["r"], h.unlisted) {
+		h.orphSince[d] = true
+	}
 }
 
 // knownLoss recognises recorded findings K1 / K6 for retained content d (a manifest or a blob) that disappeared:
@@ -927,6 +946,7 @@ func runHistory(r *vh.Run, focus string, i int) {
 	nops := 25 + rng.Intn(25)
 	for op := 0; op < nops && !h.bad; op++ {
 		h.step()
+		h.noteOrphans()
 		r.Count("operations", 1)
 	}
 	if !h.bad {
